@@ -221,6 +221,30 @@ func vpPostHeartbeat(r *raft, pre vpRec, m *pb.Message) {
 
 // ---- follower append: C03-M1, M5; C06-Q3, Q5; C15-W7 ----
 
+// vpHanded remembers the unstable entries a Ready would hand out (or has handed
+// out) before the step: the application and the append thread still read them.
+type vpHanded struct {
+	ents  []*pb.Entry
+	slots []vpSlot
+}
+
+func vpHandOut(r *raft) vpHanded {
+	h := vpHanded{ents: r.raftLog.unstable.entries}
+	for _, e := range h.ents {
+		s := vpSlotOf(e)
+		h.slots = append(h.slots, s)
+	}
+	return h
+}
+
+// check: the slice handed out earlier still shows exactly the entries it had
+func (h vpHanded) check(label string) {
+	for i, e := range h.ents {
+		s := vpSlotOf(e)
+		vpAssert(vpAnd(s.idx == h.slots[i].idx, vpSlotEq(s, h.slots[i])), label)
+	}
+}
+
 func vpPostAppend(r *raft, pre vpRec, p2 vpPre2, m *pb.Message) {
 	post := vpViewOf(r.raftLog)
 	newAfter := r.msgsAfterAppend[pre.nafter:]
